@@ -113,8 +113,9 @@ Print Assumptions c07_roundtrip_exact_index.
 
 (* a whole space (every combination of the above, any length): advertised length, inside the
    unit cube, decodes back to the same configuration.
-   _partial: finite ranges with float values must have LINEAR scaling (logfinrange without cast_int
-   is excluded by [hp_rt_ok]; over Q no log exists, and DomainR.v does not restate finite ranges);
+   _partial: finite ranges with float values must have LINEAR scaling here (logfinrange without
+   cast_int is excluded by [hp_rt_ok]: over Q no log exists; that single range is proved over R:
+   c07_roundtrip_exact_finite_range_R, but not as part of a space);
    everything else is covered: continuous / integer ranges under [sc_good], cast_int finite ranges
    with any scaling, one-hot, binary, ordinal-equal and nearest-neighbour ordinals. *)
 Theorem c07_roundtrip_space_partial :
@@ -327,6 +328,63 @@ Example c07_json_roundtrip_space_example :
               (2%Z, EDom (DOrdinalNN [VI 1; VI 2; VI 5] true))].
 Proof. repeat constructor; simpl; try lra; try exact I; reflexivity. Qed.
 
+(* ---- sample(size = k), random_config, random_configs over abstract draws ---------------------- *)
+(* Domain.sample(size = k), k = number of raw draws (>= 1), EVERY constructor incl. quantised and
+   log variants: the result is the bare value exactly when k = 1 and a list of k values otherwise,
+   and every value is a member. *)
+Theorem c07_sample_size_member :
+  forall sc_log sc_rev d rs res, dom_wf d -> samp_hyp sc_log sc_rev d ->
+    Forall (fun r => raw_ok d r = true) rs -> dom_sample_size sc_log sc_rev d rs = Some res ->
+    match res with
+    | SOne v => length rs = 1%nat /\ dom_member sc_log d v = true
+    | SMany l => length rs <> 1%nat /\ length l = length rs /\
+                 Forall (fun v => dom_member sc_log d v = true) l
+    end.
+Proof. exact sample_size_member. Qed.
+Print Assumptions c07_sample_size_member.
+
+Example c07_sample_size_example :
+  let d := DFloat (1 # 10) (3 # 10) (SQuant SUniform (1 # 10)) in
+  dom_wf d /\ samp_hyp Domain.linear Domain.linear d /\
+  dom_sample_size Domain.linear Domain.linear d [RawU (99 # 100)] = Some (SOne (VF (3 # 10))) /\
+  (exists l, dom_sample_size Domain.linear Domain.linear d [RawU 0; RawU (1 # 2)] = Some (SMany l) /\ length l = 2%nat).
+Proof.
+  cbv zeta. split; [simpl; lra|]. split; [exact I|]. split; [vm_compute; reflexivity|].
+  eexists. split; [vm_compute; reflexivity | reflexivity].
+Qed.
+
+(* random_config: one draw per hyperparameter from the ACTIVE domain where one is set
+   (_config_space_for_sampling), then the fixed position is overwritten by value_for_last_pos:
+   a configuration of the right length whose values are members of their (active) domains and whose
+   fixed position holds the fixed value ([cfg_ok]) *)
+Theorem c07_random_config_member :
+  forall sc_log sc_rev ds fixed rs c, sampling_ok sc_log sc_rev ds ->
+    Forall2 (fun p r => raw_ok (sampling_domain p) r = true) ds rs ->
+    random_config sc_log sc_rev ds fixed rs = Some c -> cfg_ok sc_log ds fixed c.
+Proof. exact random_config_member. Qed.
+Print Assumptions c07_random_config_member.
+
+(* random_configs(random_state, k): exactly k configurations, each as above (k = 0 and k = 1 included) *)
+Theorem c07_random_configs_member :
+  forall sc_log sc_rev ds fixed, sampling_ok sc_log sc_rev ds -> forall rss cs,
+    Forall (fun rs => Forall2 (fun p r => raw_ok (sampling_domain p) r = true) ds rs) rss ->
+    random_configs sc_log sc_rev ds fixed rss = Some cs ->
+    length cs = length rss /\ Forall (cfg_ok sc_log ds fixed) cs.
+Proof. exact random_configs_member. Qed.
+Print Assumptions c07_random_configs_member.
+
+Example c07_random_configs_example :
+  let ds := [(DCategorical [VS 0; VS 1; VS 2] SUniform, Some (DCategorical [VS 1; VS 2] SUniform));
+             (DInteger 1 10 (SQuant SUniform 4), None)] in
+  sampling_ok Domain.linear Domain.linear ds /\
+  random_configs Domain.linear Domain.linear ds (Some (1%nat, VI 7)) [[RawI 1; RawI 1]] = Some [[VS 2; VI 7]] /\
+  random_configs Domain.linear Domain.linear ds None [] = Some [] /\
+  random_config Domain.linear Domain.linear ds None [RawI 0; RawI 1] = Some [VS 1; VI 4].
+Proof.
+  cbv zeta. split; [repeat constructor; simpl; try lia; try discriminate; try exact I; reflexivity|].
+  repeat split; vm_compute; reflexivity.
+Qed.
+
 (* ======================================================================================== *)
 (* The same statements over the Coq REALS, where LogScaling (ln / exp) and ReverseLogScaling
    (-ln(1-x) / 1-exp(-y)) are instances of the scaling record (model/DomainR.v: the definitions
@@ -426,6 +484,23 @@ Theorem c07_sample_member_integer_log_R :
   forall lo hi u, (1 <= lo <= hi)%Z -> 0 <= u <= 1 -> (lo <= sample_int_logR lo hi u <= hi)%Z.
 Proof. exact sample_int_logR_member. Qed.
 Print Assumptions c07_sample_member_integer_log_R.
+
+(* finite range with FLOAT values (finrange / logfinrange, cast_int = False), linear, log or
+   reverse-log scaling: every listed value round-trips EXACTLY in real arithmetic (needs both
+   exp (ln y) = y and ln (exp t) = t).  This is the case [c07_roundtrip_space_partial] excludes over
+   the rationals, where no log exists. *)
+Theorem c07_roundtrip_exact_finite_range_R :
+  forall eps r i, 0 < eps < 1 / 2 -> real_scaling (rf_sc r) (rf_lo r) (rf_hi r) -> rf_lo r <= rf_hi r ->
+    (0 <= i < rf_size r)%Z ->
+    exists e, fr_to_ndR eps r (fr_map_from_intR r i) = Some e /\ 0 <= e <= 1 /\
+              fr_from_ndR eps r e = Some (fr_map_from_intR r i).
+Proof. exact fr_roundtripR. Qed.
+Print Assumptions c07_roundtrip_exact_finite_range_R.
+
+Example c07_finite_range_R_example :
+  let r := {| rf_lo := 1 / 1000; rf_hi := 1; rf_size := 4; rf_sc := logR |} in
+  real_scaling (rf_sc r) (rf_lo r) (rf_hi r) /\ rf_lo r <= rf_hi r /\ (0 <= 3 < rf_size r)%Z.
+Proof. cbv zeta. simpl. split; [constructor; lra|]. split; [lra | lia]. Qed.
 
 (* non-vacuity: loguniform(1, 100) with active [2, 50]; reverseloguniform(0, 9/10) *)
 Example c07_example_R :
